@@ -187,6 +187,7 @@ package standard
 //@ ensures [rec] forall i int :: 0 <= i && i < len(req) && result[i] == rules.APPROVED ==> wmAttOk(bytes(metadata[i].PubKey)) && wmAttS(bytes(metadata[i].PubKey)) == req[i].Source.Epoch && wmAttT(bytes(metadata[i].PubKey)) == req[i].Target.Epoch
 //@ ensures [mono] forall i int :: 0 <= i && i < len(metadata) && metadata[i] != nil && old(wmAttOk(bytes(metadata[i].PubKey))) ==> wmAttOk(bytes(metadata[i].PubKey)) && wmAttS(bytes(metadata[i].PubKey)) >= old(wmAttS(bytes(metadata[i].PubKey))) && wmAttT(bytes(metadata[i].PubKey)) >= old(wmAttT(bytes(metadata[i].PubKey)))
 //@ ensures [frame] forall k Bytes :: (forall i int :: 0 <= i && i < len(metadata) && metadata[i] != nil ==> k != attKey(bytes(metadata[i].PubKey))) ==> ((k in db) <==> (k in old(db))) && db[k] == old(db)[k]
+//@ ensures [compl] store_ok && len(metadata) == len(req) && (forall j int :: 0 <= j && j < len(req) ==> metadata[j] != nil && req[j] != nil && req[j].Source != nil && req[j].Target != nil && old(wmAttOk(bytes(metadata[j].PubKey)))) ==> (forall i int :: 0 <= i && i < len(req) && attOK(old(wmAttS(bytes(metadata[i].PubKey))), old(wmAttT(bytes(metadata[i].PubKey))), req[i].Source.Epoch, req[i].Target.Epoch, prefix4(req[i].Domain)) ==> result[i] == rules.APPROVED)
 //@ hint-after fetchSignBeaconAttestationStates@1 [okall] result1 == nil ==> (forall i int :: 0 <= i && i < len(metadata) ==> wmAttOk(bytes(metadata[i].PubKey)) && result0[i].SourceEpoch == wmAttS(bytes(metadata[i].PubKey)) && result0[i].TargetEpoch == wmAttT(bytes(metadata[i].PubKey)))
 //@ hint-after before:storeSignBeaconAttestationStates@1 [link] forall i int :: 0 <= i && i < len(metadata) ==> pubKeys[i] == metadata[i].PubKey && metadata[i] != nil
 //@ hint-after before:storeSignBeaconAttestationStates@1 [pkdistinct] forall i int, j int :: 0 <= i && i < j && j < len(pubKeys) ==> bytes(pubKeys[i]) != bytes(pubKeys[j])
@@ -223,6 +224,7 @@ package standard
 //@ invariant [verd] forall j int :: 0 <= j && j < _n ==> res[j] == rules.APPROVED || res[j] == rules.DENIED
 //@ invariant [appr] forall j int :: 0 <= j && j < _n && res[j] == rules.APPROVED ==> attOK(wmAttS(bytes(pubKeys[j])), wmAttT(bytes(pubKeys[j])), req[j].Source.Epoch, req[j].Target.Epoch, prefix4(req[j].Domain)) && states[j].SourceEpoch == req[j].Source.Epoch && states[j].TargetEpoch == req[j].Target.Epoch
 //@ invariant [deny] forall j int :: 0 <= j && j < _n && res[j] != rules.APPROVED ==> states[j].SourceEpoch == wmAttS(bytes(pubKeys[j])) && states[j].TargetEpoch == wmAttT(bytes(pubKeys[j]))
+//@ invariant [compl] forall j int :: 0 <= j && j < _n && attOK(wmAttS(bytes(pubKeys[j])), wmAttT(bytes(pubKeys[j])), req[j].Source.Epoch, req[j].Target.Epoch, prefix4(req[j].Domain)) ==> res[j] == rules.APPROVED
 //@ loop #8
 //@ invariant [range] 0 <= _n && _n <= len(res) && len(res) == len(req) && fresh(res)
 //@ invariant [noappr] forall j int :: 0 <= j && j < _n ==> res[j] == rules.FAILED
